@@ -1,4 +1,4 @@
-HOOK_COMMITS = ["57ac42604afe0a9cfd866181f1b826dd9676d18a", "75d54ed3b331393ef8ceec27b63bd5c3dbd0c67e"]
+HOOK_COMMITS = ["57ac42604afe0a9cfd866181f1b826dd9676d18a", "75d54ed3b331393ef8ceec27b63bd5c3dbd0c67e", "de166f2df26be9cbffc399523420dec502a095ad"]
 NOT_APPLICABLE = {}
 _NOTE = ("Bounded: TLC explores the specification exhaustively only inside the small constants of the MC_*.cfg files; beyond them the claim rests on "
          "trace validation of recorded executions (exhaustive small alphabets + seeded structured random inputs, threshold-directed widths). Trusted: TLC, "
@@ -18,7 +18,8 @@ TEXTS = {
            "width of every line (specification DW, oracle widths) <= width, or the remainder is a single unnarrowable fragment per the statement."),
  "C03": _t("wrap_optimal_fit on integer fragments (n <= 60; exhaustive tiny domain + random small/medium/large-exact; default and random penalties; 1- and "
            "2-element width lists): TLC compares the cost of the returned arrangement with the minimum (accumulator DP, and exhaustive over all 2^(n-1) "
-           "arrangements for n <= 9) and with first-fit; at text level the arrangement is derived existentially from wrap's lines per paragraph."),
+           "arrangements for n <= 9) and with first-fit; at text level the arrangement is derived existentially from wrap's lines per paragraph. Step level: every column minimum smawk reports (optimal_fit.column hook: column, argmin, cost) and every back-tracking step is replayed "
+           "through DPStep / BackStep of the machine MC_Optimal (spec/TraceOptimal.tla): the reported row must be a minimum of the specification's column."),
  "C04": _t("All public functions are driven with an adversarial alphabet, widths 0..usize::MAX, all built-in option combinations, arbitrary usize penalties, "
            "finite and non-finite f64 fragment widths under catch_unwind and a watchdog; a panic/hang/overflow error is data and TLC's verdict is on the "
            "recorded status (only wrap_columns with zero columns may fail). On the model: explicit fault states for every partial operation are "
@@ -28,7 +29,8 @@ TEXTS = {
            "TLC requires identical results."),
  "C06": _t("Fragment-level calls of both algorithms with arbitrary finite f64 triples; the harness logs only pointer-derived element offsets and lengths of "
            "the returned slices; TLC judges the pure partition shape. Thorough tier: Apalache checks the first-fit loop for 8 fragments with symbolic "
-           "(arbitrary non-negative integer) widths and an arbitrary width per line."),
+           "(arbitrary non-negative integer) widths and an arbitrary width per line. Step level: wrap_first_fit and wrap_optimal_fit calls are replayed hook event by hook event through MC_FirstFit / MC_Optimal "
+           "(spec/TraceFirstFit.tla, spec/TraceOptimal.tla)."),
  "C07": _t("Fragment level (integers and dyadic eighths, width lists of length 0-3): TLC requires the returned arrangement to be greedy by the declarative "
            "definition and equal to the specification's first-fit; text level: per paragraph, some reading of the lines as an arrangement of the "
            "specification's fragments must be greedy for the widths of the indents actually rendered. Step-level: every first_fit.step hook event is "
@@ -55,10 +57,14 @@ TEXTS = {
  "C16": _t("refill(fill(t,o1),o2) vs fill(t,o2 with o1's indents) for all pairs of widths / endings / algorithms; precondition (>= 2 lines, breaks at spaces) "
            "re-checked by TLC."),
  "C17": _t("fill_inplace on exhaustive small texts and random multi-paragraph texts at all widths; TLC judges same length, only space->newline changes and "
-           "equality of the trimmed lines with wrap under the documented options."),
+           "equality of the trimmed lines with wrap under the documented options. Step level: every fill_inplace.index hook event (paragraph offset, line offset) is replayed through LineStep of the machine "
+           "MC_Inplace, ParaStart / Patch as silent steps (spec/TraceInplace.tla)."),
  "C18": _t("dedent on exhaustive small texts over {a, space, tab, LF, CR} and random margin texts; TLC compares with the declarative longest-common-margin "
-           "definition and judges idempotence and dedent(indent(s,p)) = dedent(s) where the statement claims them."),
- "C19": _t("indent on exhaustive small texts and random texts with many prefixes; TLC compares with the declarative per-line definition."),
+           "definition and judges idempotence and dedent(indent(s,p)) = dedent(s) where the statement claims them. Step level: every iteration of dedent's narrowing loop and of indent's line loop is replayed through Narrow / IndentStep of the machine "
+           "MC_Indent (spec/TraceIndent.tla)."),
+ "C19": _t("indent on exhaustive small texts and random texts with many prefixes; TLC compares with the declarative per-line definition. Step level: "
+           "every iteration of indent's split_terminator loop (index, byte length of the result so far) is replayed through IndentStep of MC_Indent (spec/TraceIndent.tla)."),
  "C20": _t("wrap_columns plus the reference wrap call at the specification's column width; TLC judges the row structure (gaps, column-major cells, padding), "
-           "equal row widths when nothing protrudes, and that only zero columns may fail."),
+           "equal row widths when nothing protrudes, and that only zero columns may fail. Step level: the layout event and every cell event (row, column, byte length of the row so far) are replayed through Begin / "
+           "CellStep / Finish of the machine MC_Columns (spec/TraceColumns.tla)."),
 }
